@@ -1,7 +1,7 @@
 (* The calls the file writer makes on its buffered writer while a log file is written (recordio/file_writer.go): Open
    hands over the file header and flushes; an append hands over the record header and then the stored payload as two
    Write calls; a synchronous append flushes afterwards (and then fsyncs, which changes nothing a kill could see). *)
-From GoSST Require Import Base.Bytes RecordIO.Format RecordIO.BufWriter.
+From GoSST Require Import Base.Bytes RecordIO.Format RecordIO.BufWriter Wal.Wal.
 Local Open Scope N_scope.
 
 Definition rec_ops (c : codec) (sync : bool) (r : bytes) : list bop :=
@@ -17,3 +17,17 @@ Fixpoint recs_ops (c : codec) (rs : list (bool * bytes)) : list bop :=
 Definition log_ops (c : codec) (rs : list (bool * bytes)) : list bop :=
   [BWrite (file_hdr (ctype c)); BFlush] ++ recs_ops c rs.
 
+
+(* the appends of every log file of a session with their flags, by the rotation rule of the appender (app_append /
+   app_rotate in Wal/Wal.v): [size] is the size of the current file, [cur] its appends so far, [done] the closed files *)
+Fixpoint log_groups (c : codec) (max : N) (ops : list wop) (syncs : list bool) (size : N) (cur : list (bool * bytes))
+                    (done : list (list (bool * bytes))) : list (list (bool * bytes)) :=
+  match ops with
+  | [] => done ++ [cur]
+  | WRotate :: r => log_groups c max r syncs 8 [] (done ++ [cur])
+  | WAppend rec :: r =>
+      let s := match syncs with b :: _ => b | [] => false end in
+      let n := lenN (enc_rec c (Some rec)) in
+      if max <? size + lenN rec then log_groups c max r (tl syncs) (8 + n) [(s, rec)] (done ++ [cur])
+      else log_groups c max r (tl syncs) (size + n) (cur ++ [(s, rec)]) done
+  end.
